@@ -22,7 +22,7 @@ def main():
     a = ap.parse_args()
     if a.cmd == "ingest":
         sid = "%s-%s" % (a.prop, a.m)
-        src = a.src or "/tmp/seeds/%s-%s/%s" % ({"m3": "out2", "m4": "out2", "m5": "out3", "m6": "out3", "m7": "out4", "m8": "out4", "m9": "out5", "m10": "out5", "m11": "out6", "m12": "out6"}.get(a.m, "out"), a.prop, a.m)
+        src = a.src or "/tmp/seeds/%s-%s/%s" % ({"m3": "out2", "m4": "out2", "m5": "out3", "m6": "out3", "m7": "out4", "m8": "out4", "m9": "out5", "m10": "out5", "m11": "out6", "m12": "out6", "m13": "out7", "m14": "out7"}.get(a.m, "out"), a.prop, a.m)
         dst = os.path.join(V, "seeded", sid)
         os.makedirs(dst, exist_ok=True)
         for f in os.listdir(src):
